@@ -91,7 +91,7 @@ class State:
     def inp(self, n=None):
         return self.inps[-1 if n is None else n]
 
-    SEG_KINDS = {"emit": 0, "add_alt": 3, "add_alt_err": 2, "memwrite": 2, "memo": 1, "rewind_input": 0,
+    SEG_KINDS = {"emit": 1, "add_alt": 3, "add_alt_err": 2, "memwrite": 2, "memo": 1, "rewind_input": 0,
                  "cap": 3, "stash": 2, "oparg": 2, "uarg": 1, "order": 1}
 
     def ev(self, *e):
